@@ -66,6 +66,11 @@ type Result struct {
 	LockWaits   int // times a task was found waiting for a held sim-lock
 }
 
+type lockDepth struct {
+	gid uint64
+	n   int
+}
+
 type heldLock struct {
 	id   uintptr
 	task int
@@ -77,6 +82,8 @@ type sched struct {
 	seq      uint64
 	rootDone bool
 	off      bool // free-run mode: Yield returns immediately
+	depth    []lockDepth // goroutines inside a mutex critical section of the library (autoyield builds)
+	autoCount, autoStride int
 
 	// scheduler-goroutine private
 	cfg   Config
@@ -166,6 +173,73 @@ func Release(id uintptr) {
 		}
 	}
 	s.mu.unlock()
+}
+
+// LockDepth is the target of the lock markers that the autoyield instrumenter
+// puts around every mutex critical section of the library: +1 after Lock, -1
+// before Unlock.  AutoYield is the target of its inserted scheduling points; it
+// never parks a goroutine that holds a mutex (a waiter on a sync.Mutex is not
+// durably blocked, so the bubble could never become quiescent).
+//
+//go:norace
+func LockDepth(delta int) {
+	s := current()
+	if s == nil {
+		return
+	}
+	gid := goid()
+	s.mu.lock()
+	for i := range s.depth {
+		if s.depth[i].gid == gid {
+			s.depth[i].n += delta
+			if s.depth[i].n == 0 {
+				s.depth[i] = s.depth[len(s.depth)-1]
+				s.depth = s.depth[:len(s.depth)-1]
+			}
+			s.mu.unlock()
+			return
+		}
+	}
+	s.depth = append(s.depth, lockDepth{gid, delta})
+	s.mu.unlock()
+}
+
+// AtomicYields: whether the scheduling points before sync/atomic and sync.Map
+// operations are active (set once per worker process, before any run).  The
+// meshing and rendering checks leave them off: Mesh.Add consults the atomic index
+// pointer for every face, which would multiply their decisions for nothing.
+var AtomicYields = true
+
+//go:norace
+func AutoAtomic(site string, key int) {
+	if AtomicYields {
+		AutoYield(site, key)
+	}
+}
+
+//go:norace
+func AutoYield(site string, key int) {
+	s := current()
+	if s == nil {
+		return
+	}
+	gid := goid()
+	s.mu.lock()
+	held := false
+	for i := range s.depth {
+		if s.depth[i].gid == gid && s.depth[i].n > 0 {
+			held = true
+		}
+	}
+	// large workloads thin the inserted points out (knob "auto.stride"); only one
+	// task runs at a time, so the counter is a function of the schedule
+	s.autoCount++
+	skip := s.autoStride > 1 && s.autoCount%s.autoStride != 0
+	s.mu.unlock()
+	if held || skip {
+		return
+	}
+	s.park(site, key, 0)
 }
 
 // GoID is the runtime id of the calling goroutine (for exactly-once oracles).
@@ -358,7 +432,7 @@ func Run(t *testing.T, cfg Config, root func()) Result {
 	if stepsDir != "" {
 		cfg.KeepSteps = 1 << 30
 	}
-	s := &sched{cfg: cfg, tasks: map[uint64]int{}}
+	s := &sched{cfg: cfg, tasks: map[uint64]int{}, autoStride: cfg.Knobs["auto.stride"]}
 	s.res.Sites = map[string]int{}
 	defer func() {
 		if stepsDir != "" {
